@@ -360,7 +360,8 @@ Fixpoint cut_last_nlnl (s : bytes) : option (bytes * bytes) :=
               end
   end.
 
-Record parts := mkParts { p_headers : list (bytes * hv); p_body : bytes; p_sig : bytes }.
+(* p_content: the signed content kept with the assertion (what Signature() returns and Encode writes back) *)
+Record parts := mkParts { p_headers : list (bytes * hv); p_body : bytes; p_sig : bytes; p_content : bytes }.
 
 (* Decode up to the call of assemble (whose per-type checks are not modelled): Err = rejected before assemble *)
 Definition decode_parts (enc : bytes) : res parts :=
@@ -372,7 +373,7 @@ Definition decode_parts (enc : bytes) : res parts :=
                            | Some (h, b) => (h, b)
                            end in
       match parse_headers head with
-      | Ok h => Ok (mkParts h body sig)
+      | Ok h => Ok (mkParts h body sig content)
       | Err => Err
       | Panic => Panic
       | OutOfFuel => OutOfFuel
@@ -554,12 +555,12 @@ Definition stream_decode (lim : limits) (d : dstate) : sres * dstate :=
                           | (r2, d4) =>
                               let sig := match r2 with RFound b => b | REof b => b | _ => [] end in
                               let sig' := if has_suffix_nlnl sig then removelast sig else sig in
-                              (SOk (mkParts h (if (0 <? len)%Z then body else []) sig'), d4)
+                              (SOk (mkParts h (if (0 <? len)%Z then body else []) sig' (headAndSep ++ body)), d4)
                           end
                         else if (0 <? len)%Z then (SErr, d3)
                         else
                           let sig' := if has_suffix_nlnl endOfBody then removelast endOfBody else endOfBody in
-                          (SOk (mkParts h [] sig'), d3)
+                          (SOk (mkParts h [] sig' head), d3)                     (* contentBuf.Truncate(headLen) *)
                     end
                 end
           end
@@ -582,7 +583,8 @@ Fixpoint stream_all (lim : limits) (d : dstate) (accepted : list bool) : list sr
 (* ------------------------------------------------------------------ correspondence interface *)
 Inductive pres := POk (h : list (bytes * hv)) | PErr | PPanic.
 
-Inductive ores := OOk (h : list (bytes * hv)) (body sig : bytes) | OErr | OEof | OPanic.
+(* reenc: asserts.Encode of the returned assertion (its signed content, a blank line, its signature) *)
+Inductive ores := OOk (h : list (bytes * hv)) (body sig reenc : bytes) | OErr | OEof | OPanic.
 
 Inductive case :=
 (* appendEntry(buf, h:, v, 0): the written text split at newlines, without the empty first piece *)
@@ -591,7 +593,7 @@ Inductive case :=
 | CParse (head : bytes) (r : pres)
 (* a signed assertion: its Headers() (sorted), Body(), signature, its Encode()d form, and what Decode(enc) and a
    NewDecoder(enc).Decode() returned; timeout = a call exceeded the time bound *)
-| CCodec (h : list (bytes * hv)) (body sig enc : bytes) (dec sdec : ores) (timeout : bool)
+| CCodec (h : list (bytes * hv)) (body sig enc : bytes) (dec sdec : ores) (verified timeout : bool)
 (* arbitrary bytes given to Decode *)
 | CDecode (enc : bytes) (dec : ores) (timeout : bool)
 (* a stream given to a decoder with the given limits, Decode called until the first non-assertion result *)
@@ -599,8 +601,8 @@ Inductive case :=
 (* valid signed assertions (their Headers(), Body(), signature) written by the real Encoder into one stream, read
    back by a decoder whose limits are ample, through a reader that hands out the bytes [chunk] at a time (0 = all at
    once); sizes are chosen so that the delimiters fall on and around the decoder's read boundaries *)
-| CChunk (lim : limits) (origs : list (list (bytes * hv) * bytes * bytes)) (stream : bytes) (chunk : N)
-         (results : list ores) (timeout : bool).
+| CChunk (lim : limits) (origs : list (list (bytes * hv) * bytes * bytes * bytes)) (stream : bytes) (chunk : N)
+         (results : list ores) (verified timeout : bool).
 
 Definition pres_of (r : res (list (bytes * hv))) : pres :=
   match r with Ok h => POk (sort_headers h) | Err => PErr | _ => PPanic end.
@@ -617,7 +619,8 @@ Definition pres_eqb (a b : pres) : bool :=
    assertion must carry exactly the model's parts; a rejection is allowed wherever the model reached assemble *)
 Definition parts_agree (p : parts) (o : ores) : bool :=
   match o with
-  | OOk h body sig => headers_eqb (sort_headers (p_headers p)) h && beq (p_body p) body && beq (p_sig p) sig
+  | OOk h body sig reenc => headers_eqb (sort_headers (p_headers p)) h && beq (p_body p) body && beq (p_sig p) sig
+                            && beq (encode (p_content p) (p_sig p)) reenc
   | OErr => true
   | _ => false
   end.
@@ -629,12 +632,12 @@ Definition dec_agree (m : res parts) (o : ores) : bool :=
   | _ => match o with OPanic => true | _ => false end
   end.
 
-Definition accepted_of (rs : list ores) : list bool := map (fun o => match o with OOk _ _ _ => true | _ => false end) rs.
+Definition accepted_of (rs : list ores) : list bool := map (fun o => match o with OOk _ _ _ _ => true | _ => false end) rs.
 
 Fixpoint stream_agree (ms : list sres) (os : list ores) : bool :=
   match ms, os with
   | [], [] => true
-  | SOk p :: ms', (OOk _ _ _ as o) :: os' => parts_agree p o && stream_agree ms' os'
+  | SOk p :: ms', (OOk _ _ _ _ as o) :: os' => parts_agree p o && stream_agree ms' os'
   | SErr :: ms', OErr :: os' => is_nil_b ms' && is_nil_b os'
   | SEof :: ms', OEof :: os' => is_nil_b ms' && is_nil_b os'
   | SPanic :: ms', OPanic :: os' => is_nil_b ms' && is_nil_b os'
@@ -647,25 +650,28 @@ Definition mismatch (c : case) : bool :=
   match c with
   | CFmt v lines => negb (lines_eqb (format_entry [104; COLON] v 0) lines)
   | CParse head r => negb (pres_eqb (pres_of (parse_headers head)) r)
-  | CCodec _ _ _ enc dec sdec _ =>
+  | CCodec _ _ _ enc dec sdec _ _ =>
       negb (dec_agree (decode_parts enc) dec)
       || negb (stream_agree (stream_all default_limits (mkD enc false) (accepted_of [sdec])) [sdec])
   | CDecode enc dec _ => negb (dec_agree (decode_parts enc) dec)
   | CStream lim stream results _ =>
       negb (stream_agree (stream_all lim (mkD stream false) (accepted_of results)) results)
-  | CChunk lim _ stream _ results _ =>
+  | CChunk lim _ stream _ results _ _ =>
       negb (stream_agree (stream_all lim (mkD stream false) (accepted_of results)) results)
   end.
 
 (* The property's conclusion on the observed behaviour only (no model function of the codec is used):
    - no call panicked or exceeded its time bound;
-   - a signed assertion with normalised headers decodes (both decoders) to the identical headers, body, signature;
+   - a signed assertion with normalised headers decodes (both decoders, every chunking of the reader) to the identical
+     headers, body and signature, asserts.Encode of the decoded assertion (its signed content, a blank line, its
+     signature) is byte for byte the original encoding, and its signature still verifies against the signing key;
+   - whatever Decode accepts re-encodes to exactly the bytes it was given;
    - parseHeaders results are well-formed trees (normalised, since the text form cannot express anything else);
    - every assertion returned by a limited stream decoder respects the limits, and the results end with an
      error or EOF. *)
-Definition ores_ok_same (h : list (bytes * hv)) (body sig : bytes) (o : ores) : bool :=
+Definition ores_ok_same (h : list (bytes * hv)) (body sig enc : bytes) (o : ores) : bool :=
   match o with
-  | OOk h' body' sig' => headers_eqb h h' && beq body body' && beq sig sig'
+  | OOk h' body' sig' reenc => headers_eqb h h' && beq body body' && beq sig sig' && beq enc reenc
   | _ => false
   end.
 
@@ -673,15 +679,15 @@ Definition is_panic (o : ores) : bool := match o with OPanic => true | _ => fals
 
 Definition within (lim : limits) (o : ores) : bool :=
   match o with
-  | OOk _ body sig => (lenN body <=? l_body lim) && (lenN sig <=? N.max (l_buf lim) (l_sig lim))
+  | OOk _ body sig _ => (lenN body <=? l_body lim) && (lenN sig <=? N.max (l_buf lim) (l_sig lim))
   | _ => true
   end.
 
 (* every original comes back identical, in order, and then the stream ends cleanly *)
-Fixpoint same_all (origs : list (list (bytes * hv) * bytes * bytes)) (results : list ores) : bool :=
+Fixpoint same_all (origs : list (list (bytes * hv) * bytes * bytes * bytes)) (results : list ores) : bool :=
   match origs, results with
   | [], [OEof] => true
-  | o :: origs', r :: results' => ores_ok_same (fst (fst o)) (snd (fst o)) (snd o) r && same_all origs' results'
+  | (h, body, sig, enc) :: origs', r :: results' => ores_ok_same h body sig enc r && same_all origs' results'
   | _, _ => false
   end.
 
@@ -689,11 +695,12 @@ Definition monitor_fail (c : case) : bool :=
   match c with
   | CFmt _ _ => false
   | CParse _ r => match r with POk h => negb (norm_headers h || is_nil_b h) | PErr => false | PPanic => true end
-  | CCodec h body sig _ dec sdec timeout =>
+  | CCodec h body sig enc dec sdec verified timeout =>
       timeout || is_panic dec || is_panic sdec
       || (norm_headers h && forallb (fun kv => lines_ok (snd kv)) h
-          && negb (ores_ok_same h body sig dec && ores_ok_same h body sig sdec))
-  | CDecode _ dec timeout => timeout || is_panic dec
+          && negb (ores_ok_same h body sig enc dec && ores_ok_same h body sig enc sdec && verified))
+  | CDecode enc dec timeout =>
+      timeout || is_panic dec || match dec with OOk _ _ _ reenc => negb (beq enc reenc) | _ => false end
   | CStream lim _ results timeout =>
       timeout || existsb is_panic results || negb (forallb (within lim) results)
       || match rev results with
@@ -701,8 +708,8 @@ Definition monitor_fail (c : case) : bool :=
          | OEof :: _ => false
          | _ => true
          end
-  | CChunk lim origs _ _ results timeout =>
+  | CChunk lim origs _ _ results verified timeout =>
       timeout || existsb is_panic results
-      || (forallb (fun o => norm_headers (fst (fst o)) && forallb (fun kv => lines_ok (snd kv)) (fst (fst o))) origs
-          && negb (same_all origs results))
+      || (forallb (fun o => norm_headers (fst (fst (fst o))) && forallb (fun kv => lines_ok (snd kv)) (fst (fst (fst o)))) origs
+          && negb (same_all origs results && verified))
   end.
